@@ -41,10 +41,10 @@ ASSUMPTIONS = [
     "of the stream (it shows the last sequence's values after parsing) and is therefore not compared (oracle mistake found on "
     "the first run with concatenated sequences)",
 ]
-CASE_TIMEOUT_S = 60
+CASE_TIMEOUT_S = 180  # ~2000x a typical case; the deserialiser guard bounds garbage parses
 STEP_BUDGET = 2000000000
 
-N_QUICK = 4000
+N_QUICK = 2400
 N_THOROUGH = 96000
 
 LD_CODES = (vc2util.PC_LD_PICTURE, vc2util.PC_LD_FRAGMENT)
@@ -282,7 +282,7 @@ class Mismatch(Exception):
 def compare(des_ctx, mon_seqs, ctx):
     """raises Mismatch on the first difference; returns statistics otherwise"""
     stats = {"units": 0, "headers": 0, "pictures": 0, "coefficients": 0, "nonzero": 0, "ld": 0, "hq": 0, "frag": 0, "pic": 0,
-             "max_abs": 0}
+             "max_abs": 0, "max_abs_LD": 0, "max_abs_HQ": 0}
     dseqs = des_ctx["sequences"]
     if len(dseqs) != len(mon_seqs):
         raise Mismatch("sequence-count", "deserialiser read %d sequences, validator %d" % (len(dseqs), len(mon_seqs)))
@@ -453,6 +453,7 @@ def _finish_picture(cur, mu, stats, how):
     stats[how] += 1
     stats["nonzero"] += cur["nonzero"]
     stats["max_abs"] = max(stats["max_abs"], cur["maxabs"])
+    stats["max_abs_" + kind] = max(stats["max_abs_" + kind], cur["maxabs"])
 
 
 # --------------------------------------------------------------------------
@@ -532,6 +533,8 @@ def run_case(case, ctx):
     ctx.count("pictures:fragmented", stats["frag"])
     ctx.count("pictures:unfragmented", stats["pic"])
     ctx.maxi("max_abs_coefficient_bits", stats["max_abs"].bit_length())
+    ctx.maxi("max_abs_coefficient_bits_LD", stats["max_abs_LD"].bit_length())
+    ctx.maxi("max_abs_coefficient_bits_HQ", stats["max_abs_HQ"].bit_length())
     for a in v.applied:
         ctx.count("variation:" + a)
     if not v.applied:
@@ -547,6 +550,16 @@ def run_case(case, ctx):
         ctx.note("depth_pairs", "%d/%d" % (s["recipe"]["d"], s["recipe"]["dh"]))
     if ctx.rng.random() < 0.003:
         ctx.sample({"case": case, "applied": sorted(v.applied), "bytes": len(data), "pictures": stats["pictures"]})
+
+
+def evidence_extra(agg, tier):
+    c = agg["counters"]
+    return {
+        "rebind_call_counts": {k.split(":", 1)[1]: v for k, v in c.items() if k.startswith("rebind_calls:")},
+        "pictures_captured_and_compared": c.get("compared_pictures", 0),
+        "variation_strata": {k.split(":", 1)[1]: v for k, v in c.items() if k.startswith("variation:")},
+        "magnitude_classes": {k.split(":", 2)[2]: v for k, v in c.items() if k.startswith("variation:repack:")},
+    }
 
 
 def _explain(e):
@@ -569,9 +582,9 @@ REQUIRED_VARIATIONS = (
 def floor(agg, tier):
     c = agg["counters"]
     miss = []
-    scale = 1 if tier == "quick" else 12
-    if c.get("compared_cases", 0) < 2000 * scale:
-        miss.append("fewer than %d cases compared (%d)" % (2000 * scale, c.get("compared_cases", 0)))
+    scale = 1 if tier == "quick" else 20
+    if c.get("compared_cases", 0) < 1200 * scale:
+        miss.append("fewer than %d cases compared (%d)" % (1200 * scale, c.get("compared_cases", 0)))
     for k, need in (("pictures:LD", 300), ("pictures:HQ", 300), ("pictures:fragmented", 300), ("pictures:unfragmented", 300)):
         if c.get(k, 0) < need * scale:
             miss.append("%s: %d < %d" % (k, c.get(k, 0), need * scale))
@@ -585,8 +598,10 @@ def floor(agg, tier):
         miss.append("fewer picture_decode captures than pictures compared")
     if c.get("gen:dangling_blocks", 0) < 200 * scale:
         miss.append("fewer than %d dangling blocks" % (200 * scale))
-    if c.get("max_abs_coefficient_bits", 0) < 40:
-        miss.append("no coefficient of 2^39 or more was compared")
+    if c.get("max_abs_coefficient_bits_HQ", 0) < 40:
+        miss.append("no HQ coefficient of 2^39 or more was compared")
+    if c.get("max_abs_coefficient_bits_LD", 0) < 30:
+        miss.append("no LD coefficient of 2^29 or more was compared")
     if c.get("compared_nonzero", 0) < 50000 * scale:
         miss.append("fewer than %d non-zero coefficients compared" % (50000 * scale))
     strata = [k for k in c if k.startswith("stratum:")]
